@@ -112,7 +112,8 @@ class Branch(Term, metaclass=abc.ABCMeta):
         if szout > 1:
             replicas = szout - 1
             queue = collections.deque(maxlen=replicas)
-            return [Push(queue, term, replicas), *(Pop(queue, repr(term)) for _ in range(replicas))]
+            push = Push(queue, term, replicas)
+            return [push, *(Pop(queue, repr(term), push) for _ in range(replicas))]
         return [term]
 
 
@@ -126,7 +127,8 @@ class Push(Branch):
         self._replicas: int = replicas
 
     def __call__(self, arg: typing.Any) -> typing.Any:
-        assert not self._queue, 'Outstanding elements'
+        if self._queue:  # already produced on behalf of a parallel branch evaluated earlier
+            return self._queue.popleft()
         value = self._term(arg)
         for _ in range(self._replicas):
             self._queue.append(value)  # assuming we are duplicating just the reference
@@ -136,7 +138,13 @@ class Push(Branch):
 class Pop(Branch):
     """Helper branch term for accessing the replicated values created in parallel branch."""
 
+    def __init__(self, queue: typing.Deque[typing.Any], name: str, push: Push):
+        super().__init__(queue, name)
+        self._push: Push = push
+
     def __call__(self, arg: typing.Any) -> typing.Any:
+        if not self._queue:  # our branch is evaluated ahead of the producing one
+            return self._push(arg)
         return self._queue.popleft()
 
     def __del__(self):
@@ -157,7 +165,7 @@ class Expression(Term):
         dag = self._build(symbols)
         assert len(dag) > 0 and dag[-1].szout == 0 and not dag[0].args, 'Invalid DAG'
         providers: typing.Mapping[Term, typing.Deque[Term]] = {n.term: collections.deque([n.term]) for n in dag}
-
+        providers[dag[0].term] = collections.deque(Branch.fork(dag[0].term, dag[0].szout))
         for node in dag[1:]:
             args = [providers[a].popleft() for a in node.args]
             term = (Zip if len(args) > 1 else Chain)(providers[node.term].popleft(), *args)
